@@ -8,6 +8,7 @@ rule: inserting a key that is not yet present into a set that already holds `cap
 reports failure (`full`) and changes nothing.
 -/
 import Tetl.C09.Model
+import Tetl.C06.Spec
 namespace Tetl.C09.Spec
 open Tetl.C09
 
@@ -73,6 +74,23 @@ def insertHint (lt : α → α → Bool) (cap : Nat) (l : List α) (_hint : Nat)
   let l' := (insert lt cap l k).1
   (l', find lt l' k)
 
+/-- `erase_if(c, pred)` ([associative.erasure] / [flat.set.erasure]): the elements satisfying `pred` go; returns how many went -/
+def eraseIf (p : α → Bool) (l : List α) : List α × Nat := (l.filter (fun x => !p x), l.countP p)
+
+/-- the relational operators of `std::set` ([container.requirements], [container.opt.reqmts]): `==` is "same length and equal
+    element by element" (element `operator==`), `<` is `std::lexicographical_compare` of the two iteration sequences with
+    element `operator<` (NOT the comparator of the set); the other four are derived.  Order: `==`, `!=`, `<`, `<=`, `>`, `>=`. -/
+def relOps (e : Elem α) (a b : List α) : List Bool :=
+  let eq := Tetl.C06.Spec.equal e.eq a b
+  let lt := Tetl.C06.Spec.lexLt e.lt a b
+  let gt := Tetl.C06.Spec.lexLt e.lt b a
+  [eq, !eq, lt, !gt, gt, !lt]
+
+/-- `size()` = number of elements, `empty()` = "no elements", `full()` (fixed-capacity static_set only) = "holds `cap` elements",
+    `max_size()` = the capacity -/
+def sizes (isSet : Bool) (cap : Nat) (l : List α) : Out α :=
+  .sizes l.length l.isEmpty (if isSet then some (l.length == cap) else none) cap
+
 /-- documented preconditions of the operations of a history (everything else is total) -/
 def valid (cap : Nat) (lt : α → α → Bool) (s : St α) : Op α κ → Bool
   | .insertHint pos _ => pos ≤ s.cur.length                 -- a valid iterator of *this
@@ -81,7 +99,7 @@ def valid (cap : Nat) (lt : α → α → Bool) (s : St α) : Op α κ → Bool
   | .replace c => c.length ≤ cap && c.Pairwise (fun a b => lt a b)   -- sorted, unique, fits
   | _ => true
 
-def step (isSet : Bool) (lt : α → α → Bool) (h : Het α κ) (cap : Nat) (s : St α) : Op α κ → St α × Out α
+def step (isSet : Bool) (lt : α → α → Bool) (h : Het α κ) (e : Elem α) (cap : Nat) (s : St α) : Op α κ → St α × Out α
   | .insert k => let r := insert lt cap s.cur k; ({ s with cur := r.1 }, .ins r.2)
   | .insertHint pos k => if isSet then (s, .unit) else
       let r := insertHint lt cap s.cur pos k; ({ s with cur := r.1 }, .num r.2)
@@ -96,20 +114,23 @@ def step (isSet : Bool) (lt : α → α → Bool) (h : Het α κ) (cap : Nat) (s
   | .lookup w k => (s, lookupP (fun x => lt x k) (fun x => lt k x) s.cur w)
   | .hlookup w k => (s, lookupP (fun x => h.ek x k) (fun x => h.ke k x) s.cur w)
   | .riter => (s, .elems s.cur.reverse)
+  | .eraseIf p => let r := eraseIf p s.cur; ({ s with cur := r.1 }, .num r.2)
+  | .cmp => (s, .bools (relOps e s.cur s.other))
+  | .sizes => (s, sizes isSet cap s.cur)
 
-def run (isSet : Bool) (lt : α → α → Bool) (h : Het α κ) (cap : Nat) : St α → List (Op α κ) → St α × List (Out α)
+def run (isSet : Bool) (lt : α → α → Bool) (h : Het α κ) (e : Elem α) (cap : Nat) : St α → List (Op α κ) → St α × List (Out α)
   | s, [] => (s, [])
   | s, op :: ops =>
-    let r := step isSet lt h cap s op
-    let r2 := run isSet lt h cap r.1 ops
+    let r := step isSet lt h e cap s op
+    let r2 := run isSet lt h e cap r.1 ops
     (r2.1, r.2 :: r2.2)
 
 /-- every operation of the history satisfies its documented precondition in the state it meets -/
-def validRun (isSet : Bool) (lt : α → α → Bool) (h : Het α κ) (cap : Nat) : St α → List (Op α κ) → Bool
+def validRun (isSet : Bool) (lt : α → α → Bool) (h : Het α κ) (e : Elem α) (cap : Nat) : St α → List (Op α κ) → Bool
   | _, [] => true
   | s, op :: ops =>
     valid cap lt s op && (match op with | .extract | .replace _ | .insertHint _ _ => !isSet | _ => true)
-      && validRun isSet lt h cap (step isSet lt h cap s op).1 ops
+      && validRun isSet lt h e cap (step isSet lt h e cap s op).1 ops
 
 /-- sorted w.r.t. the comparator and unique, as a decidable predicate: strictly ascending -/
 def sortedUnique (lt : α → α → Bool) (c : List α) : Bool := decide (c.Pairwise (fun a b => lt a b = true))
